@@ -258,6 +258,11 @@ var leafKinds = []leafKind{
 		return g.secret(LN(lit), ClsNum, lit)
 	}},
 	{"bool-false", MBool, func(g *Gen) *LNode { return g.secret(LB(false), ClsBool, "") }},
+	{"number-uint64-range", MNum, func(g *Gen) *LNode { // above the largest int64, within uint64
+		g.nsec++
+		lit := fmt.Sprintf("98765432101234567%02d", g.nsec%100)
+		return g.secret(LN(lit), ClsNum, lit)
+	}},
 	{"date-offset", MDate, func(g *Gen) *LNode {
 		g.nsec++
 		d := fmt.Sprintf("2031-07-09T11:%02d:33+02:00", g.nsec%60)
